@@ -1887,8 +1887,14 @@ feature! {
             // An empty `Vec` is, like `Option::None`, a subscriber that is not
             // there: its `Some(OFF)` max level hint is a placeholder that must
             // not cap the hints of the subscribers around it.
-            if id == TypeId::of::<NoneLayerMarker>() && self.is_empty() {
-                return Some(NonNull::from(&NONE_LAYER_MARKER).cast());
+            if id == TypeId::of::<NoneLayerMarker>() {
+                // ...and so is a `Vec` all of whose members are not there; one
+                // absent member does not make the others absent.
+                return if self.iter().all(|s| s.downcast_raw(id).is_some()) {
+                    Some(NonNull::from(&NONE_LAYER_MARKER).cast())
+                } else {
+                    None
+                };
             }
 
             // Someone is looking for per-subscriber filters. But, this `Vec`
